@@ -48,6 +48,7 @@ type FuncContract struct {
 	File       string
 	Line       int
 	Used       bool
+	Ghost      []*GhostAssign
 }
 
 type PureFunc struct {
@@ -72,6 +73,8 @@ type Lemma struct {
 }
 
 type GhostField struct {
+	DeclPkg  string
+	File     string
 	PkgPath  string
 	TypeName string
 	Field    string
@@ -98,10 +101,20 @@ func newContracts() *Contracts {
 	return &Contracts{Funcs: map[string]*FuncContract{}, Pures: map[string]*PureFunc{}, Imports: map[string]map[string]string{}}
 }
 
-var reHeader = regexp.MustCompile(`^func\s*(\(\s*(\w+)?\s*(\*?)\s*([\w.]+)\s*\))?\s*([\w$]+)\s*(\((.*)\))?`)
+var reHeader = regexp.MustCompile(`^func\s*(\(\s*(\w+)?\s*(\*?)\s*([\w.]+)\s*\))?\s*([\w$.]+)\s*(\((.*)\))?`)
 var reClauseName = regexp.MustCompile(`^#([\w.$@-]+)\s*(\[([^\]]*)\])?\s*:\s*`)
 
-var subKeywords = map[string]bool{"props": true, "requires": true, "ensures": true, "modifies": true, "loop": true, "inline": true, "trusted": true, "flag": true, "pure": true}
+var subKeywords = map[string]bool{"props": true, "requires": true, "ensures": true, "modifies": true, "loop": true, "inline": true, "trusted": true, "flag": true, "pure": true, "ghost": true}
+
+// GhostAssign: `ghost x.f := expr` — ghost update performed at function exit (ghost state is never read by
+// executable code, so deferring all ghost updates to the exit is equivalent to performing them in place).
+type GhostAssign struct {
+	Target *SExpr
+	Value  *SExpr
+	Src    string
+	File   string
+	Line   int
+}
 var topKeywords = map[string]bool{"import": true, "func": true, "extern": true, "pure": true, "pred": true, "ghost": true, "devirt": true, "lemma": true, "axiom": true}
 
 type rawLine struct {
@@ -218,15 +231,20 @@ func (cs *Contracts) loadFile(path string, pkgPath string, isExternFile bool) er
 				if len(fields) < 4 || fields[1] != "field" {
 					return fail(l, "ghost field T.name Type")
 				}
-				tn := strings.SplitN(fields[2], ".", 2)
+				tn := strings.Split(fields[2], ".")
+				gpkg := pkgPath
+				if len(tn) == 3 { // alias.Type.field
+					gpkg = resolvePkg(tn[0], pkgPath, imports)
+					tn = tn[1:]
+				}
 				if len(tn) != 2 {
-					return fail(l, "ghost field T.name Type")
+					return fail(l, "ghost field [pkg.]T.name Type")
 				}
 				ty, err := parseSpecType(strings.Join(fields[3:], " "))
 				if err != nil {
 					return fail(l, "%v", err)
 				}
-				cs.Ghosts = append(cs.Ghosts, &GhostField{PkgPath: pkgPath, TypeName: tn[0], Field: tn[1], Type: ty})
+				cs.Ghosts = append(cs.Ghosts, &GhostField{PkgPath: gpkg, TypeName: tn[0], Field: tn[1], Type: ty, DeclPkg: pkgPath, File: path})
 			case "devirt":
 				parts := strings.Split(rest, "=>")
 				if len(parts) != 2 {
@@ -253,6 +271,23 @@ func (cs *Contracts) loadFile(path string, pkgPath string, isExternFile bool) er
 		switch kw {
 		case "props":
 			cur.Props = append(cur.Props, fields[1:]...)
+		case "ghost":
+			parts := strings.SplitN(rest, ":=", 2)
+			if len(parts) != 2 {
+				return fail(l, "ghost target := expr")
+			}
+			te, err := parseSpecExpr(strings.TrimSpace(parts[0]))
+			if err != nil {
+				return fail(l, "%v", err)
+			}
+			ve, err := parseSpecExpr(strings.TrimSpace(parts[1]))
+			if err != nil {
+				return fail(l, "%v", err)
+			}
+			if te.Kind != SSel {
+				return fail(l, "ghost assignment target must be a ghost field x.f")
+			}
+			cur.Ghost = append(cur.Ghost, &GhostAssign{Target: te, Value: ve, Src: rest, File: l.file, Line: l.line})
 		case "inline":
 			cur.Inline = true
 		case "trusted":
